@@ -572,6 +572,17 @@ def prove(cons, nes, goal_rel, a, b, nonneg=True):
     Bellman-Ford; anything else participates only by syntactic identity."""
     goals = _norm(goal_rel, a, b) if goal_rel != "Ne" else None
     if goal_rel == "Ne":
+        for (x, y) in nes:
+            if _norm("Eq", x, y) == _norm("Eq", a, b) or _norm("Eq", y, x) == _norm("Eq", a, b):
+                return True
+        return prove_goals(cons, nes, _norm("Lt", a, b), nonneg) or prove_goals(cons, nes, _norm("Gt", a, b), nonneg)
+    return prove_goals(cons, nes, goals, nonneg)
+
+
+def prove_goals(cons, nes, goals, nonneg=True, ne_zero_terms=()):
+    """Core: constraints and goals are lists of (terms dict, c) meaning sum(terms) <= c."""
+    goal_rel = None
+    if goal_rel == "Ne":
         # Ne provable from a stated Ne or from strict inequality either way
         for (x, y) in nes:
             if (show(x) == show(a) and show(y) == show(b)) or (show(x) == show(b) and show(y) == show(a)):
@@ -637,7 +648,7 @@ def prove(cons, nes, goal_rel, a, b, nonneg=True):
             if x != "0":
                 edges.append((x, "0", 0))      # 0 - x <= 0
     # Ne facts x != y combined with x <= y give x < y:  handled for the common pattern x != 0
-    ne_zero = set()
+    ne_zero = set(ne_zero_terms)
     for (x, y) in nes:
         lx, ly = lin(x), lin(y)
         if not ly[0] and ly[1] == 0 and len(lx[0]) == 1 and lx[1] == 0 and list(lx[0].values())[0] == 1:
